@@ -698,6 +698,27 @@ def run_handmade(run, case: dict, engine: str, sample: bool = False) -> None:
             continue
         compare_pixels(ctx, fmt, px, frame_bytes(f), f.width, [fr, dkey_json(sides[sl]), lv], 'handmade-read',
                        'pixels of an independently written file')
+    # history: read (lazy) -> the caller moves the stream position and reads from it -> frames are loaded one by one in a
+    # shuffled order.  Every lazily loaded frame must find its own bytes whatever happened to the stream in between.
+    try:
+        stream = io.BytesIO(data + b'TRAILING-BYTES-OF-A-CONTAINER' * 3)
+        lz = vm.VTF.read(stream)
+        stream.seek(0)
+        stream.read(7)
+        keys = list(lz._frames)
+        sub_rng(run.seed, 'lazy-order', len(data)).shuffle(keys)
+        for k in keys:
+            lz._frames[k].load()
+            stream.seek((len(data) * 7 + k[2]) % (len(data) + 1))
+        for (fr, sl, lv), px in images.items():
+            f = lz._frames.get((fr, sides[sl], lv))
+            if f is None or (f.width, f.height) != G.expected_dims(w, h, lv):
+                continue
+            compare_pixels(ctx, fmt, px, frame_bytes(f), f.width, [fr, dkey_json(sides[sl]), lv], 'lazy-shuffled-load',
+                           'pixels of a frame loaded lazily after the stream position was moved')
+        run.count('lazy_shuffled_loads')
+    except Exception as exc:
+        ctx.bad('lazy-load-raises', f'loading lazy frames after the stream was moved raised {type(exc).__name__}: {exc}', phase='lazy-shuffled-load')
     # history: read -> save straight away (no load(), no pixel access: every frame is still lazy) -> read.
     # The stored images of EVERY level, custom mipmaps included, must come through unchanged.
     try:
@@ -815,7 +836,7 @@ def main(run, shard=(0, 1)) -> None:
     probe.report(run)
     probe.check_reached(run)
     run.extra['formats'] = list(G.WRITABLE)
-    run.require('saves', 'reads', 'real_file_passes', 'repeated_saves', 'legacy_version_with_resources', 'resaves', 'frames_compared', 'thumbnails_compared', 'generated_mipmaps_checked', 'nearest_filter_regenerations',
+    run.require('lazy_shuffled_loads', 'saves', 'reads', 'real_file_passes', 'repeated_saves', 'legacy_version_with_resources', 'resaves', 'frames_compared', 'thumbnails_compared', 'generated_mipmaps_checked', 'nearest_filter_regenerations',
                 'index_probes', 'resource_sets_compared', 'sheets_compared', 'one_wide_textures', 'cubemaps_with_sphere',
                 'cubemaps_without_sphere', 'volumetric_textures', 'reduced_precision_main_format', 'handmade_files_read',
                 'sweep_images')
